@@ -9,6 +9,7 @@ import (
 	"path/filepath"
 	"strconv"
 	"strings"
+	"sync"
 	"time"
 
 	"qeepverif/internal/conc"
@@ -77,12 +78,61 @@ func writeSetCheck0(m *conc.Menu) string {
 	return ""
 }
 
-func runRace(bin, menu string, ng, rounds int) (out string, code int, err error) {
-	cmd := exec.Command(bin, menu, strconv.Itoa(ng), strconv.Itoa(rounds))
+// runRace runs all assignments in one process, except with 2 goroutines and in universe 2 (large tensors), where every
+// assignment gets a process of its own (6 at a time), so that package-level state of the library (pools, buffers that
+// grow on first use, lazily initialised caches) is fresh when the goroutines first race on it.
+func runRace(bin, menu string, universe, ng, rounds, nprogs int) (out string, code int, err error) {
+	if universe != 2 && ng != 2 {
+		return runRace1(bin, menu, universe, ng, rounds, -1)
+	}
+	total := 1
+	for i := 0; i < ng; i++ {
+		total *= nprogs
+	}
+	type res struct {
+		out  string
+		code int
+		err  error
+	}
+	results := make([]res, total)
+	jobs := make(chan int)
+	var wg sync.WaitGroup
+	for w := 0; w < 6; w++ {
+		wg.Add(1)
+		go func() {
+			defer wg.Done()
+			for a := range jobs {
+				o, c, e := runRace1(bin, menu, universe, ng, rounds, a)
+				results[a] = res{o, c, e}
+			}
+		}()
+	}
+	for a := 0; a < total; a++ {
+		jobs <- a
+	}
+	close(jobs)
+	wg.Wait()
+	nr := 0
+	for _, r := range results {
+		if r.err != nil || r.code != 0 || !strings.Contains(r.out, "OK assignments=") {
+			return r.out, r.code, r.err
+		}
+		nr += rounds
+	}
+	return fmt.Sprintf("OK assignments=%d concurrent_runs=%d\n", total, nr), 0, nil
+}
+
+func runRace1(bin, menu string, universe, ng, rounds, only int) (out string, code int, err error) {
+	args := []string{menu, strconv.Itoa(ng), strconv.Itoa(rounds)}
+	if only >= 0 {
+		args = append(args, strconv.Itoa(only), strconv.Itoa(only))
+	}
+	cmd := exec.Command(bin, args...)
+	cmd.Env = append(os.Environ(), fmt.Sprintf("QV_UNIVERSE=%d", universe))
 	var buf bytes.Buffer
 	cmd.Stdout = &buf
 	cmd.Stderr = &buf
-	cmd.Env = append(os.Environ(), "GORACE=halt_on_error=0 exitcode=66")
+	cmd.Env = append(cmd.Env, "GORACE=halt_on_error=0 exitcode=66")
 	e := cmd.Run()
 	if e != nil {
 		if ee, ok := e.(*exec.ExitError); ok {
@@ -144,15 +194,19 @@ func init() {
 		if err := json.Unmarshal(b, &m); err != nil {
 			return run.Brokenf("menu: %v", err)
 		}
-		c.Logf("write-set differencing of %d programs", len(m.Menu))
-		if d := writeSetCheck(&m); d != "" {
-			if strings.HasPrefix(d, "HARNESS") {
-				return run.Brokenf("%s", d)
-			}
-			if d2 := writeSetCheck(&m); d2 != "" {
-				c.Violate("sequential write-set differencing: "+d, map[string]any{"conc": "writeset", "detail": d})
+		c.Logf("write-set differencing of %d programs in 3 shape universes", len(m.Menu))
+		for u := 0; u < 3; u++ {
+			conc.Universe = u
+			if d := writeSetCheck(&m); d != "" {
+				if strings.HasPrefix(d, "HARNESS") {
+					return run.Brokenf("universe %d: %s", u, d)
+				}
+				if d2 := writeSetCheck(&m); d2 != "" {
+					c.Violate(fmt.Sprintf("sequential write-set differencing (universe %d): %s", u, d), map[string]any{"conc": "writeset", "universe": u, "detail": d})
+				}
 			}
 		}
+		conc.Universe = 0
 		for pi := range m.Menu {
 			c.Count(fmt.Sprintf("seq-%d", pi), true)
 		}
@@ -168,26 +222,29 @@ func init() {
 		if out, err := build.CombinedOutput(); err != nil {
 			return run.Brokenf("race-detector build failed: %v\n%s", err, out)
 		}
-		plans := [][2]int{{2, 40}, {3, 4}}
+		// {universe, goroutines, rounds}; universes: 0 = [2,2] tensors, 1 = [3,2,2] (rank-3 accessors), 2 = [64,64] (4096 elements)
+		plans := [][3]int{{0, 2, 40}, {0, 3, 4}, {1, 2, 20}, {1, 3, 2}, {2, 2, 1}}
 		if c.Thorough {
-			plans = [][2]int{{2, 1500}, {3, 120}, {4, 6}}
+			plans = [][3]int{{0, 2, 1500}, {0, 3, 120}, {0, 4, 6}, {1, 2, 600}, {1, 3, 40}, {2, 2, 30}, {2, 3, 2}}
 		}
-		for _, pl := range plans {
-			c.Logf("%d goroutines x all assignments x %d rounds under the race detector", pl[0], pl[1])
-			out, code, err := runRace(bin, filepath.Join(c.Work, "menu.json"), pl[0], pl[1])
+		for _, pl3 := range plans {
+			universe := pl3[0]
+			pl := [2]int{pl3[1], pl3[2]}
+			c.Logf("universe %d: %d goroutines x all assignments x %d rounds under the race detector", universe, pl[0], pl[1])
+			out, code, err := runRace(bin, filepath.Join(c.Work, "menu.json"), universe, pl[0], pl[1], len(m.Menu))
 			if err != nil {
 				return run.Brokenf("race runner: %v", err)
 			}
 			race := strings.Contains(out, "DATA RACE") || code == 66
 			if race || code == 3 {
 				// reproduce before it counts
-				out2, code2, _ := runRace(bin, filepath.Join(c.Work, "menu.json"), pl[0], pl[1])
+				out2, code2, _ := runRace(bin, filepath.Join(c.Work, "menu.json"), universe, pl[0], pl[1], len(m.Menu))
 				if strings.Contains(out2, "DATA RACE") || code2 == 66 || code2 == 3 {
 					what := "results differ from the sequential run"
 					if race {
 						what = "the race detector reports a data race"
 					}
-					c.Violate(fmt.Sprintf("%d goroutines: %s\n%s", pl[0], what, run.Tail(out, 30)), map[string]any{"conc": "race", "ng": pl[0], "rounds": pl[1], "menu": json.RawMessage(b), "output": run.Tail(out, 60)})
+					c.Violate(fmt.Sprintf("%d goroutines: %s\n%s", pl[0], what, run.Tail(out, 30)), map[string]any{"conc": "race", "universe": universe, "ng": pl[0], "rounds": pl[1], "menu": json.RawMessage(b), "output": run.Tail(out, 60)})
 				} else {
 					c.AddExtra("unreproduced_race_report", run.Tail(out, 20))
 				}
@@ -199,10 +256,10 @@ func init() {
 			var na, nr int
 			fmt.Sscanf(out[strings.Index(out, "OK assignments="):], "OK assignments=%d concurrent_runs=%d", &na, &nr)
 			for i := 0; i < nr; i++ {
-				c.Count(fmt.Sprintf("conc-%d-%d", pl[0], i), true)
+				c.Count(fmt.Sprintf("conc-%d-%d-%d", universe, pl[0], i), true)
 			}
 			c.Traces += nr
-			c.AddExtra(fmt.Sprintf("concurrent_runs_%d_goroutines", pl[0]), fmt.Sprintf("%d assignments, %d concurrent executions, no race report, results identical to sequential", na, nr))
+			c.AddExtra(fmt.Sprintf("concurrent_runs_universe_%d_%d_goroutines", universe, pl[0]), fmt.Sprintf("%d assignments, %d concurrent executions, no race report, results identical to sequential", na, nr))
 		}
 		c.Sample(map[string]any{"menu_program": m.Menu[1], "write_footprints": m.Writes[1], "final_view": m.Views[1]})
 		c.Sample(map[string]any{"menu_program": m.Menu[3], "write_footprints": m.Writes[3], "final_view": m.Views[3]})
